@@ -24,6 +24,8 @@ Definition n_st (s : wstate) (q : pos) : nat := cnt q (starts (cblog s)).
 Definition n_en (s : wstate) (q : pos) : nat := cnt q (ends (cblog s)).
 (* processed by the dispatcher: ended, and no longer on its way back *)
 Definition acked (s : wstate) (q : pos) : nat := n_en s q - n_put s q - n_dq s q.
+(* the callback of q raised: started, not running, never ended *)
+Definition n_cr (s : wstate) (q : pos) : nat := n_st s q - n_cb s q - n_en s q.
 
 Definition in_loop (d : dpc) : bool :=
   match d with DSeed _ | DLoop | DRelease _ => true | _ => false end.
@@ -32,8 +34,6 @@ Definition flag_pc (d : dpc) : bool :=
 Definition past_close (d : dpc) : bool :=
   match d with DJoinFeeder | DSet | DJoin _ | DReturned => true | _ => false end.
 
-Notation step := (wstep (fun _ => false)).
-Notation run := (wrun (fun _ => false)).
 
 Ltac unf :=
   unfold n_rq, n_cb, n_put, n_dq, n_st, n_en, set_dpc, set_wk, upd in *;
@@ -41,6 +41,9 @@ Ltac unf :=
        rdy wflag d_pc wks cblog dpend] in *.
 
 Section LTS.
+  Variable bad : pos -> bool.       (* positions whose callback raises *)
+  Notation step := (wstep bad).
+  Notation run := (wrun bad).
   Variable O : list pos.
   Variable ap : pos.
   Variable dep par pcap : nat.
@@ -81,7 +84,7 @@ Section LTS.
     end.
 
   Record QI (s : wstate) (q : pos) : Prop := {
-    q_c1 : n_st s q = n_cb s q + n_en s q;
+    q_c1 : n_cb s q + n_en s q <= n_st s q;
     q_c2 : n_put s q + n_dq s q <= n_en s q;
     q_c3 : n_rq s q + n_st s q <= 1;
     q_c4 : n_rq s q + n_st s q >= 1 -> In q O;
@@ -90,7 +93,8 @@ Section LTS.
            forall c, In c (children q) -> In c O -> acked s c = 1;
     q_c7 : In q O -> S (pn q) < dep -> n_rq s q + n_st s q = 0 ->
            rdy_get (rdy s) q = bit4 (g s (c0 q)) (g s (c1 q)) (g s (c2 q)) (g s (c3 q)) /\
-           g s (c0 q) && g s (c1 q) && g s (c2 q) && g s (c3 q) = false
+           g s (c0 q) && g s (c1 q) && g s (c2 q) && g s (c3 q) = false;
+    q_c8 : n_cr s q >= 1 -> bad q = true
   }.
 
   Definition wks_ok (s : wstate) : Prop :=
@@ -102,7 +106,7 @@ Section LTS.
 
   Definition exit_ok (s : wstate) (x : wpc * bool) : Prop :=
     match fst x with
-    | KExiting c | KExited c => c = 0 /\ wflag s = true
+    | KExiting c | KExited c => (c = 0 /\ wflag s = true) \/ (c = 1 /\ exists p, bad p = true)
     | _ => True
     end.
 
@@ -121,9 +125,9 @@ Section LTS.
     i_fdone : rq_fdone s = true -> rq_closed s = true;
     i_exit : forall w x, nth_error (wks s) w = Some x -> exit_ok s x;
     i_join : forall k, d_pc s = DJoin k ->
-             k < par /\ forall w, w < k -> exists ev, nth_error (wks s) w = Some (KExited 0, ev);
+             k < par /\ forall w, w < k -> exists c ev, nth_error (wks s) w = Some (KExited c, ev);
     i_ret : d_pc s = DReturned ->
-            forall w, w < par -> exists ev, nth_error (wks s) w = Some (KExited 0, ev);
+            forall w, w < par -> exists c ev, nth_error (wks s) w = Some (KExited c, ev);
     i_log : logok (cblog s)
   }.
 
@@ -172,6 +176,7 @@ Section LTS.
         destruct (O_child q Hq Hn) as (c & Hc & HcO). apply memb_in in HcO.
         apply children_cases in Hc. destruct Hc as [E|[E|[E|E]]]; subst c; rewrite HcO; cbn [negb andb];
           rewrite ?andb_false_r; reflexivity.
+      + unfold n_cr. rewrite Ecb, Est, Een. lia.
     - unfold init0. destruct seeds; reflexivity.
     - unfold init0. destruct seeds; reflexivity.
     - unfold init0. destruct seeds; reflexivity.
@@ -198,17 +203,35 @@ Section LTS.
   Lemma g_same s s' c : acked s' c = acked s c -> g s' c = g s c.
   Proof. intros H. unfold g. rewrite H. reflexivity. Qed.
 
-  Lemma QI_frame s s' q :
+  Lemma QI_frame0 s s' q :
     QI s q ->
-    n_st s' q = n_cb s' q + n_en s' q ->
+    n_cb s' q + n_en s' q <= n_st s' q ->
+    (n_cr s' q >= 1 -> bad q = true) ->
     n_put s' q + n_dq s' q <= n_en s' q ->
     n_rq s' q + n_st s' q = n_rq s q + n_st s q ->
     (forall c, acked s' c = acked s c) ->
     rdy s' = rdy s ->
     QI s' q.
   Proof.
-    intros [C1 C2 C3 C4 C5 C6 C7] H1 H2 H3 Hack Hr.
+    intros [C1 C2 C3 C4 C5 C6 C7 C8] H1 H1' H2 H3 Hack Hr.
     constructor; try assumption; rewrite ?H3; try assumption.
+    - intros Hq Hn Hw c Hc HcO. rewrite Hack. eapply C6; eauto.
+    - intros Hq Hn Hw. rewrite Hr, !(g_same s s') by apply Hack. apply C7; assumption.
+  Qed.
+
+  Lemma QI_frame s s' q :
+    QI s q ->
+    n_cb s' q + n_en s' q <= n_st s' q ->
+    n_st s' q - n_cb s' q - n_en s' q <= n_st s q - n_cb s q - n_en s q ->
+    n_put s' q + n_dq s' q <= n_en s' q ->
+    n_rq s' q + n_st s' q = n_rq s q + n_st s q ->
+    (forall c, acked s' c = acked s c) ->
+    rdy s' = rdy s ->
+    QI s' q.
+  Proof.
+    intros [C1 C2 C3 C4 C5 C6 C7 C8] H1 H1' H2 H3 Hack Hr.
+    constructor; try assumption; rewrite ?H3; try assumption;
+      try (intros Hx; apply C8; unfold n_cr in *; lia).
     - intros Hq Hn Hw c Hc HcO. rewrite Hack. eapply C6; eauto.
     - intros Hq Hn Hw. rewrite Hr, !(g_same s s') by apply Hack. apply C7; assumption.
   Qed.
@@ -329,7 +352,7 @@ Section LTS.
     - intros _ q Hq. rewrite (same_acked _ _ HS). apply Hpa; auto.
     - exact Hcl.
     - intros w x Hx. pose proof (i_exit s H w x Hx) as He. unfold exit_ok in *. unf.
-      destruct (fst x); auto; split; tauto.
+      destruct (fst x); auto; (destruct He as [[-> _]|He]; [left; auto|right; exact He]).
     - intros k Hk. injection Hk as <-. split; [lia|]. intros w Hlt. lia.
   Qed.
 
@@ -342,9 +365,9 @@ Section LTS.
     destruct (d_pc s) as [| | | | | |k| |] eqn:Epc; try discriminate.
     apply andb_true_iff in En. destruct En as [E1 E2]. apply Nat.eqb_eq in E1. subst k.
     destruct (Hj w eq_refl) as [Hk Hprev].
-    assert (Hex : exists ev, nth_error (wks s) w = Some (KExited 0, ev)).
+    assert (Hex : exists c ev, nth_error (wks s) w = Some (KExited c, ev)).
     { unfold wk_exited, wk_get in E2. destruct (nth_error (wks s) w) as [[[] ev]|] eqn:Ew; try discriminate.
-      destruct (i_exit s H w _ Ew) as [-> _]. eauto. }
+      eauto. }
     assert (HS : same_counts s (set_dpc s (if Nat.eqb (S w) (length (wks s)) then DReturned else DJoin (S w)))).
     { intros q. unf. rewrite Epc. destruct (Nat.eqb (S w) (length (wks s))); cbn [dpend]; repeat split. }
     rewrite Hw in *.
@@ -436,12 +459,12 @@ Section LTS.
     - rewrite nth_error_set_nth_neq in H' by assumption. eauto.
   Qed.
 
-  Lemma upd_exited (l : list (wpc * bool)) w old x w' ev :
+  Lemma upd_exited (l : list (wpc * bool)) w old x w' c0 ev :
     nth_error l w = Some old -> (forall c, fst old <> KExited c) ->
-    nth_error l w' = Some (KExited 0, ev) -> nth_error (set_nth l w x) w' = Some (KExited 0, ev).
+    nth_error l w' = Some (KExited c0, ev) -> nth_error (set_nth l w x) w' = Some (KExited c0, ev).
   Proof.
     intros Ho Hne H'. destruct (Nat.eq_dec w' w) as [->|Hd].
-    - rewrite Ho in H'. injection H' as ->. exfalso. apply (Hne 0). reflexivity.
+    - rewrite Ho in H'. injection H' as ->. exfalso. apply (Hne c0). reflexivity.
     - rewrite nth_error_set_nth_neq; [exact H'|eapply nth_error_lt; eauto|exact Hd].
   Qed.
 
@@ -464,8 +487,8 @@ Section LTS.
     - intros Hl q Hq. rewrite (same_acked _ _ HS). apply (i_past s H Hl q Hq).
     - apply (upd_all (exit_ok s)); [apply H|exact Hex|exact Hlt].
     - intros k Hk. destruct (i_join s H k Hk) as [A B]. split; [exact A|].
-      intros w' Hw'. destruct (B w' Hw') as (ev & E). exists ev. eapply upd_exited; eauto.
-    - intros Hr w' Hw'. destruct (i_ret s H Hr w' Hw') as (ev & E). exists ev. eapply upd_exited; eauto.
+      intros w' Hw'. destruct (B w' Hw') as (c' & ev' & E). exists c', ev'. eapply upd_exited; eauto.
+    - intros Hr w' Hw'. destruct (i_ret s H Hr w' Hw') as (c' & ev' & E). exists c', ev'. eapply upd_exited; eauto.
   Qed.
 
   Lemma inv_KTimeout s w : Inv s -> wenabled s (KTimeout w) = true -> Inv (step s (KTimeout w)).
@@ -482,7 +505,7 @@ Section LTS.
     apply (inv_set_wk s w (KAtFlag, ev)); auto; try reflexivity.
     - destruct (wflag s), ev; reflexivity.
     - destruct (wflag s), ev; reflexivity.
-    - unfold exit_ok. destruct (wflag s) eqn:Ef; [|exact I]. destruct ev; cbn; auto.
+    - unfold exit_ok. destruct (wflag s) eqn:Ef; [|exact I]. destruct ev; cbn; left; auto.
     - intros c. discriminate.
   Qed.
 
@@ -514,18 +537,18 @@ Section LTS.
     { intros c. unfold acked. destruct (HD c) as (_ & _ & -> & -> & _ & ->). reflexivity. }
     constructor; try solve [subst s'; unf; apply H].
     - intros q. destruct (HD q) as (D1 & D2 & D3 & D4 & D5 & D6).
-      pose proof (i_q s H q) as HQ. pose proof HQ as [C1 C2 C3 C4 C5 C6 C7].
+      pose proof (i_q s H q) as HQ. pose proof HQ as [C1 C2 C3 C4 C5 C6 C7 C8].
       apply (QI_frame s s' q HQ); try lia; auto.
     - unfold wks_ok. subst s'. unf. apply (wks_ok_upd s w (KAtGet, ev)); auto. apply set_nth_length. exact Hlt.
     - intros Hl. rewrite Hack. apply (i_loop s H Hl).
     - intros Hl q Hq. rewrite Hack. apply (i_past s H Hl q Hq).
     - subst s'. unf. apply (upd_all (exit_ok s)); [apply H|exact I|exact Hlt].
     - subst s'. unf. intros k Hk. destruct (i_join s H k Hk) as [A B]. split; [exact A|].
-      intros w' Hw'. destruct (B w' Hw') as (ev' & E). exists ev'. eapply upd_exited; eauto. intros c; discriminate.
-    - subst s'. unf. intros Hr w' Hw'. destruct (i_ret s H Hr w' Hw') as (ev' & E). exists ev'.
+      intros w' Hw'. destruct (B w' Hw') as (c' & ev' & E). exists c', ev'. eapply upd_exited; eauto. intros c; discriminate.
+    - subst s'. unf. intros Hr w' Hw'. destruct (i_ret s H Hr w' Hw') as (c' & ev' & E). exists c', ev'.
       eapply upd_exited; eauto. intros c; discriminate.
     - subst s'. unf. cbn [logok]. split; [|apply H]. intros c Hc HcO.
-      pose proof (i_q s H p) as [C1 C2 C3 C4 C5 C6 C7].
+      pose proof (i_q s H p) as [C1 C2 C3 C4 C5 C6 C7 C8].
       assert (Hrq : n_rq s p >= 1). { unf. rewrite Ep, (cnt_cons p p rest), cnt_one_same. lia. }
       assert (HpO : In p O) by (apply C4; lia).
       pose proof (O_level p HpO) as L1. pose proof (O_level c HcO) as L2.
@@ -538,7 +561,35 @@ Section LTS.
   Proof.
     intros H En. unfold wstep. rewrite En. cbn [negb]. unfold wenabled, wk_get in *.
     destruct (nth_error (wks s) w) as [[[| |p| | |] ev]|] eqn:Ew; try discriminate.
-    pose proof (nth_error_lt _ _ _ Ew) as Hlt. name_state s'.
+    pose proof (nth_error_lt _ _ _ Ew) as Hlt.
+    destruct (bad p) eqn:Ebad.
+    { (* the callback raises: the worker dies, the position is never reported *)
+      name_state s'.
+      assert (HD : forall q, n_rq s' q = n_rq s q /\ n_cb s' q + cnt q [p] = n_cb s q /\
+                             n_put s' q = n_put s q /\ n_dq s' q = n_dq s q /\
+                             n_st s' q = n_st s q /\ n_en s' q = n_en s q).
+      { intros q. subst s'. unf.
+        pose proof (cnt_flat_set_nth cbpos (wks s) w _ (leave ev 1, ev) q Ew) as A.
+        pose proof (cnt_flat_set_nth putpos (wks s) w _ (leave ev 1, ev) q Ew) as B.
+        destruct ev; cbn [leave cbpos putpos fst] in *; rewrite cnt_nil in *; repeat split; lia. }
+      assert (Hack : forall c, acked s' c = acked s c).
+      { intros c. unfold acked. destruct (HD c) as (_ & _ & -> & -> & _ & ->). reflexivity. }
+      constructor; try solve [subst s'; unf; apply H].
+      - intros q. destruct (HD q) as (D1 & D2 & D3 & D4 & D5 & D6).
+        pose proof (i_q s H q) as HQ. pose proof HQ as [C1 C2 C3 C4 C5 C6 C7 C8].
+        apply (QI_frame0 s s' q HQ); try lia; auto.
+        intros Hx. destruct (pos_eq_dec q p) as [->|Hq]; [exact Ebad|].
+        rewrite cnt_one_diff in D2 by exact Hq. apply C8. unfold n_cr in *. lia.
+      - unfold wks_ok. subst s'. unf. apply (wks_ok_upd s w (KInCb p, ev)); auto. apply set_nth_length. exact Hlt.
+      - intros Hl. rewrite Hack. apply (i_loop s H Hl).
+      - intros Hl q Hq. rewrite Hack. apply (i_past s H Hl q Hq).
+      - subst s'. unf. apply (upd_all (exit_ok s)); [apply H| |exact Hlt].
+        unfold exit_ok. destruct ev; cbn [leave fst]; right; split; eauto.
+      - subst s'. unf. intros k Hk. destruct (i_join s H k Hk) as [A B]. split; [exact A|].
+        intros w' Hw'. destruct (B w' Hw') as (c' & ev' & E). exists c', ev'. eapply upd_exited; eauto. intros c; discriminate.
+      - subst s'. unf. intros Hr w' Hw'. destruct (i_ret s H Hr w' Hw') as (c' & ev' & E). exists c', ev'.
+        eapply upd_exited; eauto. intros c; discriminate. }
+    name_state s'.
     assert (HD : forall q, n_rq s' q = n_rq s q /\ n_cb s' q + cnt q [p] = n_cb s q /\
                            n_put s' q = n_put s q + cnt q [p] /\ n_dq s' q = n_dq s q /\
                            n_st s' q = n_st s q /\ n_en s' q = n_en s q + cnt q [p]).
@@ -550,18 +601,18 @@ Section LTS.
     { intros c. unfold acked. destruct (HD c) as (_ & _ & -> & -> & _ & ->). lia. }
     constructor; try solve [subst s'; unf; apply H].
     - intros q. destruct (HD q) as (D1 & D2 & D3 & D4 & D5 & D6).
-      pose proof (i_q s H q) as HQ. pose proof HQ as [C1 C2 C3 C4 C5 C6 C7].
+      pose proof (i_q s H q) as HQ. pose proof HQ as [C1 C2 C3 C4 C5 C6 C7 C8].
       apply (QI_frame s s' q HQ); try lia; auto.
     - unfold wks_ok. subst s'. unf. apply (wks_ok_upd s w (KInCb p, ev)); auto. apply set_nth_length. exact Hlt.
     - intros Hl. rewrite Hack. apply (i_loop s H Hl).
     - intros Hl q Hq. rewrite Hack. apply (i_past s H Hl q Hq).
     - subst s'. unf. apply (upd_all (exit_ok s)); [apply H|exact I|exact Hlt].
     - subst s'. unf. intros k Hk. destruct (i_join s H k Hk) as [A B]. split; [exact A|].
-      intros w' Hw'. destruct (B w' Hw') as (ev' & E). exists ev'. eapply upd_exited; eauto. intros c; discriminate.
-    - subst s'. unf. intros Hr w' Hw'. destruct (i_ret s H Hr w' Hw') as (ev' & E). exists ev'.
+      intros w' Hw'. destruct (B w' Hw') as (c' & ev' & E). exists c', ev'. eapply upd_exited; eauto. intros c; discriminate.
+    - subst s'. unf. intros Hr w' Hw'. destruct (i_ret s H Hr w' Hw') as (c' & ev' & E). exists c', ev'.
       eapply upd_exited; eauto. intros c; discriminate.
     - subst s'. unf. cbn [logok]. split; [|apply H].
-      pose proof (i_q s H p) as [C1 C2 C3 C4 C5 C6 C7].
+      pose proof (i_q s H p) as [C1 C2 C3 C4 C5 C6 C7 C8].
       pose proof (cnt_flat_nth cbpos (wks s) w _ p Ew) as A. cbn [cbpos fst] in A. rewrite cnt_one_same in A.
       apply cnt_in. unf. lia.
   Qed.
@@ -588,7 +639,7 @@ Section LTS.
     { intros c. unfold acked. destruct (HD c) as (_ & _ & D3 & D4 & _ & D6). lia. }
     constructor; try solve [subst s'; unf; apply H].
     - intros q. destruct (HD q) as (D1 & D2 & D3 & D4 & D5 & D6).
-      pose proof (i_q s H q) as HQ. pose proof HQ as [C1 C2 C3 C4 C5 C6 C7].
+      pose proof (i_q s H q) as HQ. pose proof HQ as [C1 C2 C3 C4 C5 C6 C7 C8].
       apply (QI_frame s s' q HQ); try lia; auto.
     - subst s'. unf. rewrite set_nth_length; [apply H|]. rewrite (i_bufs s H). exact Hwp.
     - subst s'. unf. pose proof (len_flat_set_nth idl (dq_bufs s) w _ (nth_buf (dq_bufs s) w ++ [p]) Eb) as C.
@@ -598,8 +649,8 @@ Section LTS.
     - intros Hl q Hq. rewrite Hack. apply (i_past s H Hl q Hq).
     - subst s'. unf. apply (upd_all (exit_ok s)); [apply H|exact I|exact Hlt].
     - subst s'. unf. intros k Hk. destruct (i_join s H k Hk) as [A B]. split; [exact A|].
-      intros w' Hw'. destruct (B w' Hw') as (ev' & E). exists ev'. eapply upd_exited; eauto. intros c; discriminate.
-    - subst s'. unf. intros Hr w' Hw'. destruct (i_ret s H Hr w' Hw') as (ev' & E). exists ev'.
+      intros w' Hw'. destruct (B w' Hw') as (c' & ev' & E). exists c', ev'. eapply upd_exited; eauto. intros c; discriminate.
+    - subst s'. unf. intros Hr w' Hw'. destruct (i_ret s H Hr w' Hw') as (c' & ev' & E). exists c', ev'.
       eapply upd_exited; eauto. intros c; discriminate.
   Qed.
 
@@ -619,7 +670,8 @@ Section LTS.
 
   Lemma QI_frame2 s s' p q :
     QI s q ->
-    n_st s' q = n_cb s' q + n_en s' q ->
+    n_cb s' q + n_en s' q <= n_st s' q ->
+    n_st s' q - n_cb s' q - n_en s' q <= n_st s q - n_cb s q - n_en s q ->
     n_put s' q + n_dq s' q <= n_en s' q ->
     n_rq s' q + n_st s' q = n_rq s q + n_st s q ->
     (forall c, acked s' c = if pos_eq_dec c p then 1 else acked s c) ->
@@ -627,8 +679,9 @@ Section LTS.
     (In q O -> ~ In p (children q)) ->
     QI s' q.
   Proof.
-    intros [C1 C2 C3 C4 C5 C6 C7] H1 H2 H3 Hack Hr Hnp.
-    constructor; try assumption; rewrite ?H3; try assumption.
+    intros [C1 C2 C3 C4 C5 C6 C7 C8] H1 H1' H2 H3 Hack Hr Hnp.
+    constructor; try assumption; rewrite ?H3; try assumption;
+      try (intros Hx; apply C8; unfold n_cr in *; lia).
     - intros Hq Hn Hw c Hc HcO. rewrite Hack. destruct (pos_eq_dec c p); [reflexivity|]. eapply C6; eauto.
     - intros Hq Hn Hw. destruct (g_other s s' p q Hack (Hnp Hq)) as (-> & -> & -> & ->).
       rewrite Hr. apply C7; assumption.
@@ -639,7 +692,7 @@ Section LTS.
     n_dq s p = 1 /\ n_en s p = 1 /\ n_put s p = 0 /\ n_st s p = 1 /\ n_rq s p = 0 /\ n_cb s p = 0 /\
     In p O /\ acked s p = 0.
   Proof.
-    intros H Ep. pose proof (i_q s H p) as [C1 C2 C3 C4 C5 C6 C7].
+    intros H Ep. pose proof (i_q s H p) as [C1 C2 C3 C4 C5 C6 C7 C8].
     assert (Hd : n_dq s p >= 1). { unf. rewrite Ep, (cnt_cons p p rest), cnt_one_same. lia. }
     assert (HpO : In p O) by (apply C4; lia). unfold acked. repeat split; try lia; auto.
   Qed.
@@ -658,7 +711,7 @@ Section LTS.
         destruct (O_parent q Hq Hne) as (pp & ix & iy & Hp & HppO).
         pose proof (child_of_parent _ _ _ _ Hp) as Hc. pose proof (children_level _ _ Hc) as Hl.
         assert (Ha : acked s pp = 1) by (apply IH; [lia|exact HppO]).
-        pose proof (HQ pp) as [C1 C2 C3 C4 C5 C6 C7]. pose proof (O_level q Hq) as L.
+        pose proof (HQ pp) as [C1 C2 C3 C4 C5 C6 C7 C8]. pose proof (O_level q Hq) as L.
         apply (C6 HppO); auto; [lia|]. unfold acked in Ha. lia. }
     intros q Hq. apply (Hn (pn q)); auto.
   Qed.
@@ -701,7 +754,7 @@ Section LTS.
       { intros q. subst s'. unf. rewrite Epc. reflexivity. }
       assert (HQ : forall q, QI s' q).
       { intros q. destruct (HC q) as (D1 & D2 & D3 & D4 & D5).
-        pose proof (i_q s H q) as HQ. pose proof HQ as [C1 C2 C3 C4 C5 C6 C7].
+        pose proof (i_q s H q) as HQ. pose proof HQ as [C1 C2 C3 C4 C5 C6 C7 C8].
         apply (QI_frame2 s s' ap q HQ); try (rewrite ?Hrq; lia); auto.
         intros Hq Hc. apply children_level in Hc. pose proof (O_above q Hq). lia. }
       constructor; try solve [subst s'; unf; apply H]; try (subst s'; unf; discriminate).
@@ -719,7 +772,7 @@ Section LTS.
       pose proof (child_of_parent _ _ _ _ Hp) as Hch. pose proof (children_level _ _ Hch) as Hlv.
       pose proof (O_level p HpO) as Lp.
       assert (Lpp : S (pn pp) < dep) by lia.
-      pose proof (i_q s H pp) as [P1 P2 P3 P4 P5 P6 P7].
+      pose proof (i_q s H pp) as [P1 P2 P3 P4 P5 P6 P7 P8].
       assert (Hwait : n_rq s pp + n_st s pp = 0).
       { destruct (Nat.eq_dec (n_rq s pp + n_st s pp) 1) as [E|E]; [|lia].
         pose proof (P6 HppO Lpp E p Hch HpO). lia. }
@@ -755,7 +808,7 @@ Section LTS.
         { intros c. unfold g, gp. rewrite Hack. reflexivity. }
         constructor; try solve [subst s'; unf; apply H]; try (subst s'; unf; discriminate).
         * intros q. destruct (HC q) as (D1 & D2 & D3 & D4 & D5). specialize (Hrq q).
-          pose proof (i_q s H q) as HQ. pose proof HQ as [C1 C2 C3 C4 C5 C6 C7].
+          pose proof (i_q s H q) as HQ. pose proof HQ as [C1 C2 C3 C4 C5 C6 C7 C8].
           destruct (pos_eq_dec q pp) as [->|Hq].
           -- rewrite cnt_one_same in Hrq.
              constructor; try lia; auto.
@@ -784,7 +837,7 @@ Section LTS.
         { intros c. unfold g, gp. rewrite Hack. reflexivity. }
         constructor; try solve [subst s'; unf; apply H]; try (subst s'; unf; discriminate).
         * intros q. destruct (HC q) as (D1 & D2 & D3 & D4 & D5). specialize (Hrq q).
-          pose proof (i_q s H q) as HQ. pose proof HQ as [C1 C2 C3 C4 C5 C6 C7].
+          pose proof (i_q s H q) as HQ. pose proof HQ as [C1 C2 C3 C4 C5 C6 C7 C8].
           destruct (pos_eq_dec q pp) as [->|Hq].
           -- constructor; try lia; auto.
              intros _ _ _. rewrite !Hg. split; [|exact E15].
@@ -854,11 +907,11 @@ Section LTS.
   Lemma inv_safe s : Inv s -> safe s.
   Proof.
     intros H. unfold safe. repeat split.
-    - intros p w Hin. pose proof (i_q s H p) as [C1 C2 C3 C4 C5 C6 C7]. apply C4.
+    - intros p w Hin. pose proof (i_q s H p) as [C1 C2 C3 C4 C5 C6 C7 C8]. apply C4.
       assert (Hs : In p (starts (cblog s))) by (apply in_starts; eauto).
       apply cnt_in in Hs. unf. lia.
-    - apply cnt_nodup. intros q. pose proof (i_q s H q) as [C1 C2 C3 C4 C5 C6 C7]. unf. lia.
-    - apply cnt_nodup. intros q. pose proof (i_q s H q) as [C1 C2 C3 C4 C5 C6 C7]. unf. lia.
+    - apply cnt_nodup. intros q. pose proof (i_q s H q) as [C1 C2 C3 C4 C5 C6 C7 C8]. unf. lia.
+    - apply cnt_nodup. intros q. pose proof (i_q s H q) as [C1 C2 C3 C4 C5 C6 C7 C8]. unf. lia.
     - intros l1 p w l2 E. pose proof (logok_split _ (i_log s H) l1 true p w l2 E) as Hs.
       cbv beta iota in Hs. apply in_starts. exact Hs.
     - intros l1 p w l2 E c Hc HcO.
@@ -872,12 +925,13 @@ Section LTS.
     Inv s -> d_pc s = DReturned ->
     Permutation (starts (cblog s)) O /\ Permutation (ends (cblog s)) O /\
     length (wks s) = par /\
-    (forall w x, nth_error (wks s) w = Some x -> fst x = KExited 0).
+    (forall w x, nth_error (wks s) w = Some x -> exists c, fst x = KExited c) /\
+    ((forall p, bad p = false) -> forall w x, nth_error (wks s) w = Some x -> fst x = KExited 0).
   Proof.
     intros H Hr.
     assert (Hpa : forall q, In q O -> acked s q = 1) by (apply (i_past s H); rewrite Hr; reflexivity).
     assert (Hcnt : forall q, n_st s q = cnt q O /\ n_en s q = cnt q O).
-    { intros q. pose proof (i_q s H q) as [C1 C2 C3 C4 C5 C6 C7].
+    { intros q. pose proof (i_q s H q) as [C1 C2 C3 C4 C5 C6 C7 C8].
       destruct (in_dec pos_eq_dec q O) as [Hq|Hq].
       - rewrite (cnt_nodup_in O q O_nodup Hq). specialize (Hpa q Hq). unfold acked in Hpa. lia.
       - assert (E0 : cnt q O = 0) by (apply cnt_notin; exact Hq). rewrite E0.
@@ -889,7 +943,11 @@ Section LTS.
     - apply cnt_perm. intros q. apply (Hcnt q).
     - exact Hw.
     - intros w x Hx. pose proof (nth_error_lt _ _ _ Hx) as Hlt. rewrite Hw in Hlt.
-      destruct (i_ret s H Hr w Hlt) as (ev & E). rewrite E in Hx. injection Hx as <-. reflexivity.
+      destruct (i_ret s H Hr w Hlt) as (c & ev & E). rewrite E in Hx. injection Hx as <-. exists c. reflexivity.
+    - intros Hnb w x Hx. pose proof (nth_error_lt _ _ _ Hx) as Hlt. rewrite Hw in Hlt.
+      destruct (i_ret s H Hr w Hlt) as (c & ev & E). pose proof (i_exit s H w _ E) as He.
+      rewrite E in Hx. injection Hx as <-. unfold exit_ok in He. cbn [fst] in *.
+      destruct He as [[-> _]|[_ (p & Hb)]]; [reflexivity|]. rewrite Hnb in Hb. discriminate.
   Qed.
 
   (* ---- no deadlock -------------------------------------------------------------------------- *)
@@ -914,7 +972,7 @@ Section LTS.
     Inv s -> in_loop (d_pc s) = false ->
     n_rq s p + n_cb s p + n_put s p + n_dq s p >= 1 -> False.
   Proof.
-    intros H Hl Hb. pose proof (i_q s H p) as [C1 C2 C3 C4 C5 C6 C7].
+    intros H Hl Hb. pose proof (i_q s H p) as [C1 C2 C3 C4 C5 C6 C7 C8].
     assert (HpO : In p O) by (apply C4; lia).
     pose proof (i_past s H Hl p HpO) as Ha. unfold acked in Ha. lia.
   Qed.
@@ -932,17 +990,21 @@ Section LTS.
   Qed.
 
   Lemma acked_le1 s q : Inv s -> acked s q <= 1.
-  Proof. intros H. pose proof (i_q s H q) as [C1 C2 C3 C4 C5 C6 C7]. unfold acked. lia. Qed.
+  Proof. intros H. pose proof (i_q s H q) as [C1 C2 C3 C4 C5 C6 C7 C8]. unfold acked. lia. Qed.
 
   Lemma quiescent_false s :
+    (forall p, bad p = false) ->
     Inv s -> in_loop (d_pc s) = true ->
     (forall q, n_rq s q = 0 /\ n_cb s q = 0 /\ n_put s q = 0 /\ n_dq s q = 0) -> False.
   Proof.
-    intros H Hl Hz.
+    intros Hnb H Hl Hz.
     assert (Hn : forall n q, dep - pn q <= n -> In q O -> acked s q = 0 -> False).
     { induction n as [|n IH]; intros q Hle Hq Ha; pose proof (O_level q Hq) as L; [lia|].
-      pose proof (i_q s H q) as [C1 C2 C3 C4 C5 C6 C7]. destruct (Hz q) as (Z1 & Z2 & Z3 & Z4).
+      pose proof (i_q s H q) as [C1 C2 C3 C4 C5 C6 C7 C8]. destruct (Hz q) as (Z1 & Z2 & Z3 & Z4).
       unfold acked in Ha.
+      assert (Hcr : n_cr s q = 0).
+      { destruct (Nat.eq_dec (n_cr s q) 0) as [E|E]; [exact E|]. rewrite Hnb in C8. discriminate C8. lia. }
+      unfold n_cr in Hcr.
       assert (Hwait : n_rq s q + n_st s q = 0) by lia.
       destruct (Nat.eq_dec (S (pn q)) dep) as [E|E]; [specialize (C5 Hq E); lia|].
       destruct (C7 Hq ltac:(lia) Hwait) as [_ Hg].
@@ -969,9 +1031,9 @@ Section LTS.
     rewrite nth_error_set_nth_eq by (eapply nth_error_lt; eauto). rewrite Ep. reflexivity.
   Qed.
 
-  Theorem no_deadlock s : Inv s -> d_pc s <> DReturned -> can_progress s.
+  Theorem no_deadlock s : (forall p, bad p = false) -> Inv s -> d_pc s <> DReturned -> can_progress s.
   Proof.
-    intros H Hnr.
+    intros Hnb H Hnr.
     pose proof (i_wks s H) as Hw. unfold wks_ok in Hw.
     pose proof (i_flag s H) as Hfl. pose proof (i_closed s H) as Hcl.
     destruct (d_pc s) as [l| |p| | | |k| |] eqn:Epc; try congruence; try contradiction.
@@ -998,7 +1060,7 @@ Section LTS.
           left. exists (KCb w). split; [|reflexivity]. unfold wenabled, wk_get. rewrite Hx. reflexivity. }
       destruct (rq_pipe s) as [|p rest] eqn:Erq.
       + destruct (rq_buf s) as [|p b] eqn:Ebuf.
-        * exfalso. apply (quiescent_false s H); [rewrite Epc; reflexivity|].
+        * exfalso. apply (quiescent_false s Hnb H); [rewrite Epc; reflexivity|].
           intros q. unf. rewrite Epc, Ebuf, Erq, Ebufs, Edq, Eput, Ecb. cbn [dpend]. rewrite !cnt_nil. auto.
         * left. exists FFlushReady. split; [|reflexivity]. unfold wenabled.
           rewrite Ebuf, Erq, (i_pcap s H). cbn [negb andb length]. apply Nat.ltb_lt. lia.
@@ -1010,7 +1072,7 @@ Section LTS.
         { apply (flat_map_all_nil cbpos (wks s) Ecb). eapply nth_error_In; eauto. }
         assert (Hput0 : putpos (st, ev) = []).
         { apply (flat_map_all_nil putpos (wks s) Eput). eapply nth_error_In; eauto. }
-        destruct st; try (destruct Hex; discriminate); try discriminate.
+        destruct st; try (destruct Hex as [[_ Hf]|[_ (p' & Hb)]]; [discriminate|rewrite Hnb in Hb; discriminate]); try discriminate.
         * left. exists (KRecv 0). split; [|reflexivity]. unfold wenabled, wk_get. rewrite E0, Erq. reflexivity.
         * right. exists (KIsSet 0), (KRecv 0). split; [|split; [|split]].
           -- unfold wenabled, wk_get. rewrite E0. reflexivity.
@@ -1065,23 +1127,25 @@ Section LTS.
     | DJoin k => S (par - k) | DReturned => 0 | DRaised => 0
     end.
 
-  Definition wrank (x : wpc) : nat :=
+  (* [fl] = the shutdown flag: while it is clear the flag test is a polling move *)
+  Definition wrank (fl : bool) (x : wpc) : nat :=
     match x with
-    | KExited _ => 0 | KExiting _ => 1 | KAtFlag => 2 | KAtGet => 3 | KInCb _ => 0 | KAtPut _ => 9
+    | KExited _ => 0 | KExiting _ => 1 | KAtFlag => if fl then 2 else 3 | KAtGet => 3
+    | KInCb _ => 2 | KAtPut _ => 9
     end.
 
-  Definition wtok (x : wpc * bool) : list unit := repeat tt (wrank (fst x)).
+  Definition wtok (fl : bool) (x : wpc * bool) : list unit := repeat tt (wrank fl (fst x)).
 
   Definition measure (s : wstate) : nat :=
     3 * length (dpend (d_pc s)) + 2 * length (rq_buf s) + length (rq_pipe s)
     + 10 * (length O - length (ends (cblog s)))
     + 5 * length (flat_map idl (dq_bufs s)) + 4 * length (dq_pipe s)
-    + (if rq_fdone s then 0 else 1) + drank (d_pc s) + length (flat_map wtok (wks s)).
+    + (if rq_fdone s then 0 else 1) + drank (d_pc s) + length (flat_map (wtok (wflag s)) (wks s)).
 
-  Lemma wtok_len x : length (wtok x) = wrank (fst x).
+  Lemma wtok_len fl x : length (wtok fl x) = wrank fl (fst x).
   Proof. apply repeat_length. Qed.
 
-  Lemma wtok_start : length (flat_map wtok (start_workers par)) = 3 * par.
+  Lemma wtok_start fl : length (flat_map (wtok fl) (start_workers par)) = 3 * par.
   Proof.
     unfold start_workers. generalize par as n. induction n as [|n IH]; [reflexivity|].
     cbn [repeat flat_map]. rewrite app_length, IH. cbn. lia.
@@ -1089,13 +1153,19 @@ Section LTS.
 
   Lemma ends_lt s p : Inv s -> n_cb s p >= 1 -> length (ends (cblog s)) < length O.
   Proof.
-    intros H Hc. pose proof (i_q s H p) as [C1 C2 C3 C4 C5 C6 C7].
+    intros H Hc. pose proof (i_q s H p) as [C1 C2 C3 C4 C5 C6 C7 C8].
     assert (Hnd : NoDup (p :: ends (cblog s))).
     { constructor; [apply cnt_notin; unf; lia|]. apply (inv_safe s H). }
     assert (Hincl : incl (p :: ends (cblog s)) O).
     { intros x [<-|Hx]; [apply C4; lia|].
-      pose proof (i_q s H x) as [X1 X2 X3 X4 X5 X6 X7]. apply X4. apply cnt_in in Hx. unf. lia. }
+      pose proof (i_q s H x) as [X1 X2 X3 X4 X5 X6 X7 X8]. apply X4. apply cnt_in in Hx. unf. lia. }
     pose proof (NoDup_incl_length Hnd Hincl) as Hl. cbn [length] in Hl. lia.
+  Qed.
+
+  Lemma wtok_flag_le fl l : length (flat_map (wtok true) l) <= length (flat_map (wtok fl) l).
+  Proof.
+    induction l as [|[st ev] l IH]; [reflexivity|]. cbn [flat_map]. rewrite !app_length, !wtok_len. cbn [fst].
+    assert (wrank true st <= wrank fl st) by (destruct st, fl; cbn; lia). lia.
   Qed.
 
   Ltac msr := cbv beta iota zeta; unfold measure; unf; cbn [dpend drank length]; rewrite ?app_length; cbn [length].
@@ -1129,7 +1199,7 @@ Section LTS.
       destruct (rq_fdone s); lia.
     - (* DSetFlag *)
       destruct (d_pc s) eqn:Epc; try discriminate. msr. rewrite Epc. cbn [dpend drank length].
-      destruct (rq_fdone s); lia.
+      pose proof (wtok_flag_le (wflag s) (wks s)). destruct (rq_fdone s); lia.
     - (* DJoinW *)
       destruct (d_pc s) as [| | | | | |k| |] eqn:Epc; try discriminate.
       apply andb_true_iff in En. destruct En as [E1 _]. apply Nat.eqb_eq in E1. subst k.
@@ -1148,21 +1218,25 @@ Section LTS.
     - (* KRecv *)
       destruct (nth_error (wks s) w) as [[[] ev]|] eqn:Ew; try discriminate.
       destruct (rq_pipe s) as [|p rest] eqn:Ep; [discriminate|]. msr. rewrite Ep, ends_cons_s. cbn [length].
-      pose proof (len_flat_set_nth wtok (wks s) w _ (KInCb p, ev) Ew) as Hc. rewrite !wtok_len in Hc.
+      pose proof (len_flat_set_nth (wtok (wflag s)) (wks s) w _ (KInCb p, ev) Ew) as Hc. rewrite !wtok_len in Hc.
       cbn [fst wrank] in Hc. destruct (rq_fdone s); lia.
     - (* KTimeout *)
-      destruct (nth_error (wks s) w) as [[[] ev]|] eqn:Ew; try discriminate. msr.
-      pose proof (len_flat_set_nth wtok (wks s) w _ (KAtFlag, ev) Ew) as Hc. rewrite !wtok_len in Hc.
+      apply negb_false_iff in Hpoll.
+      destruct (nth_error (wks s) w) as [[[] ev]|] eqn:Ew; try discriminate. msr. rewrite Hpoll.
+      pose proof (len_flat_set_nth (wtok true) (wks s) w _ (KAtFlag, ev) Ew) as Hc. rewrite !wtok_len in Hc.
       cbn [fst wrank] in Hc. destruct (rq_fdone s); lia.
     - (* KIsSet *)
       apply negb_false_iff in Hpoll.
-      destruct (nth_error (wks s) w) as [[[] ev]|] eqn:Ew; try discriminate. rewrite Hpoll. msr.
-      pose proof (len_flat_set_nth wtok (wks s) w _ (leave ev 0, ev) Ew) as Hc. rewrite !wtok_len in Hc.
+      destruct (nth_error (wks s) w) as [[[] ev]|] eqn:Ew; try discriminate. rewrite Hpoll. msr. rewrite Hpoll.
+      pose proof (len_flat_set_nth (wtok true) (wks s) w _ (leave ev 0, ev) Ew) as Hc. rewrite !wtok_len in Hc.
       cbn [fst wrank] in Hc. destruct ev; cbn [leave wrank] in *; destruct (rq_fdone s); lia.
     - (* KCb *)
-      destruct (nth_error (wks s) w) as [[[| |p| | |] ev]|] eqn:Ew; try discriminate. msr.
-      rewrite ends_cons_e. cbn [length].
-      pose proof (len_flat_set_nth wtok (wks s) w _ (KAtPut p, ev) Ew) as Hc. rewrite !wtok_len in Hc.
+      destruct (nth_error (wks s) w) as [[[| |p| | |] ev]|] eqn:Ew; try discriminate.
+      destruct (bad p) eqn:Ebad.
+      { msr. pose proof (len_flat_set_nth (wtok (wflag s)) (wks s) w _ (leave ev 1, ev) Ew) as Hc. rewrite !wtok_len in Hc.
+        cbn [fst wrank] in Hc. destruct ev; cbn [leave wrank] in *; destruct (rq_fdone s); lia. }
+      msr. rewrite ends_cons_e. cbn [length].
+      pose proof (len_flat_set_nth (wtok (wflag s)) (wks s) w _ (KAtPut p, ev) Ew) as Hc. rewrite !wtok_len in Hc.
       cbn [fst wrank] in Hc.
       assert (Hlt : length (ends (cblog s)) < length O).
       { apply (ends_lt s p H). pose proof (cnt_flat_nth cbpos (wks s) w _ p Ew) as A.
@@ -1174,14 +1248,32 @@ Section LTS.
       assert (Eb : nth_error (dq_bufs s) w = Some (nth_buf (dq_bufs s) w)).
       { apply nth_error_some_nth. rewrite (i_bufs s H). exact Hwp. }
       msr.
-      pose proof (len_flat_set_nth wtok (wks s) w _ (KAtGet, true) Ew) as Hc. rewrite !wtok_len in Hc.
+      pose proof (len_flat_set_nth (wtok (wflag s)) (wks s) w _ (KAtGet, true) Ew) as Hc. rewrite !wtok_len in Hc.
       cbn [fst wrank] in Hc.
       pose proof (len_flat_set_nth idl (dq_bufs s) w _ (nth_buf (dq_bufs s) w ++ [p]) Eb) as C.
       unfold idl at 2 4 in C. rewrite app_length in C. cbn [length] in C.
       destruct (rq_fdone s); lia.
     - (* KExit *)
       destruct (nth_error (wks s) w) as [[[] ev]|] eqn:Ew; try discriminate. msr.
-      pose proof (len_flat_set_nth wtok (wks s) w _ (KExited code, ev) Ew) as Hc. rewrite !wtok_len in Hc.
+      pose proof (len_flat_set_nth (wtok (wflag s)) (wks s) w _ (KExited code, ev) Ew) as Hc. rewrite !wtok_len in Hc.
       cbn [fst wrank] in Hc. destruct (rq_fdone s); lia.
+  Qed.
+
+  (* polling moves (and the dispatcher's timeout) leave the measure unchanged *)
+  Theorem measure_polling s a :
+    wenabled s a = true -> wpolling s a = true -> measure (step s a) = measure s.
+  Proof.
+    intros En Hpoll. unfold wstep. rewrite En. cbn [negb]. unfold wk_get.
+    destruct a as [| | | | | |w| | |w|w|w|w|w|w|w]; unfold wenabled, wk_get in En; cbn [wpolling] in Hpoll;
+      try discriminate.
+    - reflexivity.
+    - apply negb_true_iff in Hpoll.
+      destruct (nth_error (wks s) w) as [[[] ev]|] eqn:Ew; try discriminate. msr. rewrite Hpoll.
+      pose proof (len_flat_set_nth (wtok false) (wks s) w _ (KAtFlag, ev) Ew) as Hc. rewrite !wtok_len in Hc.
+      cbn [fst wrank] in Hc. lia.
+    - apply negb_true_iff in Hpoll.
+      destruct (nth_error (wks s) w) as [[[] ev]|] eqn:Ew; try discriminate. rewrite Hpoll. msr. rewrite Hpoll.
+      pose proof (len_flat_set_nth (wtok false) (wks s) w _ (KAtGet, ev) Ew) as Hc. rewrite !wtok_len in Hc.
+      cbn [fst wrank] in Hc. lia.
   Qed.
 End LTS.
